@@ -4,12 +4,13 @@
 (* properties (expansion path restored, twin == reference, cycles reported, *)
 (* nothing selected => text unchanged, hooks called once per expanded call)  *)
 (* and prints the predicted observables for replay into the real code.       *)
-EXTENDS Expander, Json
+EXTENDS Expander, Json, IOUtils
 
 CONSTANTS Universe, Known
 
 NoDev == {}
 DevInvokeLeak == {"InvokeDisabledLeavesStackEntry"}
+DevPattern == {"RepeatedPatternLoopDetection"}
 DevTopDefault == {"TopLevelDefaultNotExpanded"}
 
 (* ---------------- constructors ---------------- *)
@@ -34,8 +35,8 @@ T2If == Plain(<<If(<<Par(<<"1">>)>>, <<Txt(<<"SP", "y", "SP">>)>>, <<Call("T1", 
 SpBody == Plain(<<Txt(<<"SP", "v", "SP">>)>>)
 StarBody == Plain(<<Txt(<<"*">>), Par(<<"1">>)>>)
 EmptyBody == Plain(<<>>)
-LibBase == ("T1" :> T1Show) @@ ("T2" :> T2Fwd) @@ ("SP" :> SpBody) @@ ("E" :> EmptyBody)
-LibIf == ("T1" :> StarBody) @@ ("T2" :> T2If) @@ ("SP" :> SpBody) @@ ("E" :> EmptyBody)
+LibBase == ("T1" :> T1Show) @@ ("T2" :> T2Fwd) @@ ("Sp" :> SpBody) @@ ("E" :> EmptyBody)
+LibIf == ("T1" :> StarBody) @@ ("T2" :> T2If) @@ ("Sp" :> SpBody) @@ ("E" :> EmptyBody)
 
 \* cyclic libraries (C05a / C16): A (and B) on top of LibBase
 LSelf == LibBase @@ ("A" :> Plain(<<Txt(<<"x">>), Call("A", <<>>), Txt(<<"y">>)>>))
@@ -46,19 +47,20 @@ LDef == LibBase @@ ("A" :> Plain(<<ParD(<<"1">>, <<Call("A", <<>>)>>)>>))
 LIf == LibBase @@ ("A" :> Plain(<<If(<<ParD(<<"1">>, <<>>)>>, <<Txt(<<"r">>), Call("A", <<Pos(<<Par(<<"1">>)>>)>>)>>, <<Txt(<<"end">>)>>)>>))
 LFan == LibBase @@ ("A" :> Plain(<<Call("A", <<>>), Txt(<<"+">>), Call("A", <<>>)>>))
 LSw == LibBase @@ ("A" :> Plain(<<Switch(<<Par(<<"1">>)>>, <<[key |-> <<"a">>, val |-> <<Call("A", <<Pos(<<Txt(<<"a">>)>>)>>)>>]>>, TRUE, <<Txt(<<"stop">>)>>)>>))
+LAlt == LibBase @@ ("A" :> Plain(<<Call("B", <<>>)>>)) @@ ("B" :> Plain(<<If(<<Call("A", <<>>)>>, <<Call("A", <<>>), Call("B", <<>>)>>, <<>>)>>))
 LInvPre == LibBase @@ ("A" :> Plain(<<Inv("pre", <<>>)>>))
-CyclicLibs == {LSelf, LMut, LArg, LNamed, LDef, LIf, LFan, LSw}
+CyclicLibs == {LSelf, LMut, LArg, LNamed, LDef, LIf, LFan, LSw, LAlt}
 AcyclicLibs == {LibBase, LibIf}
 
 (* ---------------- pages ---------------- *)
-V0 == { <<Txt(<<"a">>)>>, <<Txt(<<"SP", "b", "SP">>)>>, <<Call("SP", <<>>)>>, <<Call("T1", <<Pos(<<Txt(<<"i">>)>>)>>)>>,
+V0 == { <<Txt(<<"a">>)>>, <<Txt(<<"SP", "b", "SP">>)>>, <<Call("Sp", <<>>)>>, <<Call("T1", <<Pos(<<Txt(<<"i">>)>>)>>)>>,
         <<Call("NOPE", <<>>)>>, <<>> }
 CallPages == { <<Call(n, <<Pos(v)>>)>> : n \in {"T1", "T2", "NOPE", "E"}, v \in V0 }
-             \cup { <<Call(n, <<Named(<<"x">>, v), Pos(w)>>)>> : n \in {"T1", "T2"}, v \in V0, w \in {<<Txt(<<"a">>)>>, <<Call("SP", <<>>)>>} }
-             \cup { <<Txt(<<"p">>), Call("T2", <<Pos(<<Call("T1", <<Pos(<<Call("SP", <<>>)>>)>>)>>)>>), Txt(<<"q">>)>> }
+             \cup { <<Call(n, <<Named(<<"x">>, v), Pos(w)>>)>> : n \in {"T1", "T2"}, v \in V0, w \in {<<Txt(<<"a">>)>>, <<Call("Sp", <<>>)>>} }
+             \cup { <<Txt(<<"p">>), Call("T2", <<Pos(<<Call("T1", <<Pos(<<Call("Sp", <<>>)>>)>>)>>)>>), Txt(<<"q">>)>> }
 PfnPages == { <<If(c, <<Call("T1", <<Pos(<<Txt(<<"y">>)>>)>>)>>, <<Txt(<<"n">>)>>)>> : c \in V0 }
-            \cup { <<IfEq(<<Call("SP", <<>>)>>, <<Txt(<<"v">>)>>, <<Txt(<<"eq">>)>>, <<Call("T2", <<>>)>>)>>,
-                   <<Switch(<<Call("SP", <<>>)>>, <<[key |-> <<"v">>, val |-> <<Call("T1", <<Pos(<<Txt(<<"s">>)>>)>>)>>]>>, TRUE, <<Txt(<<"d">>)>>)>>,
+            \cup { <<IfEq(<<Call("Sp", <<>>)>>, <<Txt(<<"v">>)>>, <<Txt(<<"eq">>)>>, <<Call("T2", <<>>)>>)>>,
+                   <<Switch(<<Call("Sp", <<>>)>>, <<[key |-> <<"v">>, val |-> <<Call("T1", <<Pos(<<Txt(<<"s">>)>>)>>)>>]>>, TRUE, <<Txt(<<"d">>)>>)>>,
                    <<ParD(<<"z">>, <<Call("T1", <<Pos(<<Txt(<<"q">>)>>)>>)>>)>>, <<Par(<<"z">>)>> }
 InvPages == { <<Inv(fn, <<Pos(v)>>)>> : fn \in {"echo", "err", "pre", "tpl"}, v \in {<<Txt(<<"a">>)>>, <<Call("T1", <<Pos(<<Txt(<<"i">>)>>)>>)>>} }
             \cup { <<Call("T1", <<Pos(<<Inv("echo", <<Pos(<<Txt(<<"a">>)>>)>>)>>)>>)>>,
@@ -74,6 +76,7 @@ RECURSIVE Nest(_)
 Nest(n) == IF n = 0 THEN <<Txt(<<"c">>)>> ELSE <<Call("T1", <<Pos(Nest(n - 1))>>)>>
 RECURSIVE NestIf(_)
 NestIf(n) == IF n = 0 THEN <<Txt(<<"c">>)>> ELSE <<If(<<Txt(<<"1">>)>>, NestIf(n - 1), <<>>)>>
+DeepPagesQ == { Nest(n) : n \in {2, 49, 50} } \cup { NestIf(n) : n \in {33, 34} }
 DeepPages == { Nest(n) : n \in {1, 2, 10, 48, 49, 50, 51, 60} } \cup { NestIf(n) : n \in {10, 32, 33, 34, 40} }
 
 (* ---------------- options ---------------- *)
@@ -83,13 +86,14 @@ Opt(pre, hasExp, exp, hasNot, nots, pfns, invoke, tfn, pfn) ==
 Opts16 == { Opt(pre, FALSE, {}, FALSE, {}, pf, iv, h, IF h = "none" THEN "none" ELSE "observe") :
               pre \in BOOLEAN, pf \in BOOLEAN, iv \in BOOLEAN, h \in {"none", "observe"} }
 OptAll == Opt(FALSE, FALSE, {}, FALSE, {}, TRUE, TRUE, "none", "none")
-Names == {"T1", "T2", "SP"}
+Names == {"T1", "T2", "Sp"}
 OptsSel ==
   { Opt(TRUE, he, IF he THEN e ELSE {}, hn, IF hn THEN n ELSE {}, pf, TRUE, tf, po) :
-      he \in BOOLEAN, e \in SUBSET Names, hn \in BOOLEAN, n \in {{}, {"T1"}, {"SP", "T2"}},
+      he \in BOOLEAN, e \in SUBSET Names, hn \in BOOLEAN, n \in {{}, {"T1"}, {"Sp", "T2"}},
       pf \in BOOLEAN, tf \in {"none", "observe", "marker"}, po \in {"none", "replace"} }
 OptsSelQ == { o \in OptsSel : (o.hasExp \/ o.exp = {}) /\ (o.hasNot \/ o.nots = {}) /\ ~(o.tfn = "marker" /\ o.pfn = "replace") }
-Needs == { {}, {"T1"}, {"T2"}, {"SP", "T1"} }
+OptsFullHooks == { Opt(FALSE, FALSE, {}, FALSE, {}, TRUE, TRUE, tf, po) : tf \in {"none", "observe", "marker"}, po \in {"none", "observe", "replace"} }
+Needs == { {}, {"T1"}, {"T2"}, {"Sp", "T1"} }
 
 Cases ==
   CASE Universe = "C16" ->
@@ -104,10 +108,21 @@ Cases ==
          { [lib |-> l, need |-> {}, page |-> p, o |-> OptAll] : l \in CyclicLibs \cup AcyclicLibs, p \in CycPages \cup DeepPages }
     [] Universe = "C13" ->
          { [lib |-> l, need |-> nd, page |-> p, o |-> o] :
-             l \in AcyclicLibs, nd \in Needs, p \in CallPages \cup PfnPages, o \in OptsSel }
+             l \in AcyclicLibs, nd \in Needs, p \in CallPages \cup PfnPages, o \in OptsSel \cup OptsFullHooks }
     [] Universe = "C13Q" ->
          { [lib |-> l, need |-> nd, page |-> p, o |-> o] :
-             l \in {LibBase}, nd \in {{}, {"T2"}, {"SP", "T1"}}, p \in CallPages \cup PfnPages, o \in OptsSelQ }
+             l \in {LibBase}, nd \in {{}, {"T2"}, {"Sp", "T1"}}, p \in CallPages \cup PfnPages, o \in OptsSelQ \cup OptsFullHooks }
+    [] Universe = "C05Q" ->
+         { [lib |-> l, need |-> {}, page |-> p, o |-> OptAll] : l \in CyclicLibs, p \in CycPages }
+         \cup { [lib |-> LibBase, need |-> {}, page |-> p, o |-> OptAll] : p \in DeepPagesQ }
+    [] Universe = "BLOWUP" ->
+         { [lib |-> LAlt, need |-> {}, page |-> <<Call("A", <<>>)>>, o |-> OptAll] }
+    [] Universe = "FILE" ->
+         \* recorded / externally generated cases (V direction): sets arrive as JSON arrays
+         LET raw == JsonDeserialize(IOEnv.CASE_FILE)
+             SetOf(q) == {q[i] : i \in 1..Len(q)}
+         IN { [lib |-> raw[i].lib, need |-> SetOf(raw[i].need), page |-> raw[i].page,
+               o |-> [raw[i].o EXCEPT !.exp = SetOf(@), !.nots = SetOf(@)]] : i \in 1..Len(raw) }
     [] Universe = "C04M" ->
          { [lib |-> l, need |-> {}, page |-> p, o |-> OptAll] : l \in AcyclicLibs, p \in CallPages \cup PfnPages }
 
@@ -137,15 +152,37 @@ CutsReportedR(r) ==
 \* C13 (i): nothing selected and parser functions off => the page comes back unchanged
 NothingSelected(c) == c.o.pre /\ ~c.o.hasExp /\ c.need = {} /\ ~c.o.pfns /\ c.o.tfn = "none" /\ c.o.pfn = "none"
 NoTopPar(c) == \A i \in 1..Len(c) : c[i].k # "p"
+\* "unchanged" is read up to the blanks around the first argument of a parser function
+\* (insignificant in MediaWiki: parser-function parameters are trimmed), which expand()
+\* strips when it re-emits the call
+RECURSIVE SrcT(_), SrcTArgs(_, _)
+SrcTItem(it) ==
+  CASE it.k = "if" -> <<"{{", "#if:">> \o Trim(SrcT(it.c)) \o <<"|">> \o Src(it.y) \o <<"|">> \o Src(it.n) \o <<"}}">>
+    [] it.k = "eq" -> <<"{{", "#ifeq:">> \o Trim(SrcT(it.a)) \o <<"|">> \o Src(it.b) \o <<"|">> \o Src(it.y) \o <<"|">> \o Src(it.n) \o <<"}}">>
+    [] it.k = "sw" -> <<"{{", "#switch:">> \o Trim(SrcT(it.v)) \o SrcCases(it.cases, 1)
+                      \o (IF it.hasDflt THEN <<"|", "#default", "=">> \o Src(it.dflt) ELSE <<>>) \o <<"}}">>
+    [] it.k = "c" -> <<"{{", it.name>> \o SrcTArgs(it.args, 1) \o <<"}}">>
+    [] OTHER -> SrcItem(it)
+SrcTArgs(args, i) ==
+  IF i > Len(args) THEN <<>>
+  ELSE <<"|">> \o (IF args[i].named THEN SrcT(args[i].key) \o <<"=">> ELSE <<>>) \o SrcT(args[i].val) \o SrcTArgs(args, i + 1)
+SrcT(c) == IF c = <<>> THEN <<>> ELSE SrcTItem(Head(c)) \o SrcT(Tail(c))
 UnchangedWhenNothingSelectedR(r) ==
-  (NothingSelected(case) /\ NoTopPar(case.page)) => r.out = Src(case.page)
+  (NothingSelected(case) /\ NoTopPar(case.page)) => r.out = SrcT(case.page)
 \* C13 (iii): template_fn is called once per expanded call, post_template_fn at most once per call
 HooksOncePerCallR(r) ==
   LET nT == Cardinality({i \in 1..Len(r.st.hooks) : r.st.hooks[i].hook = "template_fn"})
       nP == Cardinality({i \in 1..Len(r.st.hooks) : r.st.hooks[i].hook = "post_template_fn"})
   IN (case.o.tfn = "none" => nT = 0) /\ (case.o.pfn = "none" => nP = 0) /\ (case.o.tfn # "none" /\ case.o.pfn # "none" => nP <= nT)
 
-LawsR(r) == StackRestoredR(r) /\ TwinIsReferenceR(r) /\ CutsReportedR(r) /\ UnchangedWhenNothingSelectedR(r) /\ HooksOncePerCallR(r)
+\* C05a: the work of one call is bounded by a small polynomial in the depth limit and
+\* the library size (|lib| * DepthLimit * 8 pushes); the repeated-pattern loop detector
+\* violates it (Demo_Expander_blowup: LAlt with a small depth limit)
+WorkBound == Cardinality(DOMAIN case.lib) * DepthLimit * 8
+WorkBoundedR(r) == r.st.steps <= WorkBound
+DemoBlowup == LET n == Run(case, DevPattern).st.steps IN PrintT(<<"STEPS", n, WorkBound>>) /\ n <= WorkBound
+
+LawsR(r) == WorkBoundedR(r) /\ StackRestoredR(r) /\ TwinIsReferenceR(r) /\ CutsReportedR(r) /\ UnchangedWhenNothingSelectedR(r) /\ HooksOncePerCallR(r)
 
 EmitR(r) ==
   LET a == IF Known = {} THEN r ELSE Run(case, Known)
